@@ -30,14 +30,19 @@ def make_points(rng, d, n_points):
     return pts
 
 
-def make_jobs(ctx, n_defs, n_points, ks=(None,), rational_every=2, **genkw):
+def make_jobs(ctx, n_defs, n_points, ks=(None,), rational_every=2, function_coverage=False, **genkw):
     jobs = []
+    fixed = [d for d in M.function_coverage_definitions() if not d.get("numerics")][2:] if function_coverage else []
     for i in range(n_defs):
         kw = dict(min_sensors=1, max_sensors=2, max_states=4, max_readings=3)
         kw.update(genkw)
         d = M.gen_definition(ctx.rng, rational=(i % rational_every == 0), force_bilinear=(i % 8 == 3), tiny_sensor_noise=True, **kw)
         decl = {"container": ctx.rng.choice(["set", "list"]), "perm_seed": ctx.rng.randint(0, 10**6)}
         jobs.append({"defn": d, "cse": bool(i % 3 != 1), "k": ks[i % len(ks)], "decl": decl, "points": make_points(ctx.rng, d, n_points)})
+    # appended (the random stream above is unchanged): the inverse functions read by a sensor at arguments of either sign
+    for gi, d in enumerate(fixed):
+        for cse in (False, True):
+            jobs.append({"defn": d, "cse": cse, "k": None, "decl": {"container": "list", "perm_seed": gi}, "points": make_points(ctx.rng, d, n_points)})
     return jobs
 
 
